@@ -376,6 +376,7 @@ type runner struct {
 	prev   *digest           // restarted-wallet answers after the previous op
 	blame  map[[2]int]string // (scope, account) -> last wallet op that created / modified / cached it
 	copies int
+	dryImports int
 }
 
 func (r *runner) Close() {
@@ -423,10 +424,17 @@ func (r *runner) reset() error {
 	}
 	r.u, r.uIdx, r.names, r.coins, r.prev = nil, map[string]*uaddr{}, []string{"1"}, nil, nil
 	r.blame = map[[2]int]string{}
+	r.dryImports = 0
 	return nil
 }
 
+func canon(id string) string {
+	n, _ := strconv.Atoi(id)
+	return strconv.Itoa(n)
+}
+
 func (r *runner) useName(id string) {
+	id = canon(id)
 	for _, n := range r.names {
 		if n == id {
 			return
@@ -707,6 +715,31 @@ func (r *runner) restarted() (*digest, error) {
 	return d, nil
 }
 
+// restartedUnlock: does a wallet restarted on the current database unlock with the right passphrase?
+func (r *runner) restartedUnlock() error {
+	r.copies++
+	path := filepath.Join(r.dir, fmt.Sprintf("copy%d.db", r.copies))
+	if err := copyFile(filepath.Join(r.dir, "wallet.db"), path); err != nil {
+		return err
+	}
+	defer os.Remove(path)
+	db, err := walletdb.Open("bdb", path, true, 10*time.Second, false)
+	if err != nil {
+		return err
+	}
+	defer db.Close()
+	w2, err := wallet.OpenWithRetry(db, pubPass, nil, params, 0, 10*time.Millisecond)
+	if err != nil {
+		return err
+	}
+	w2.Start()
+	defer func() {
+		w2.Stop()
+		w2.WaitForShutdown()
+	}()
+	return w2.Unlock(privPass, nil)
+}
+
 // ---------------------------------------------------------------- oracle: running wallet vs restarted wallet
 
 func (r *runner) blameOf(sc, a int) string {
@@ -803,9 +836,19 @@ func desText(addr string) string {
 // ---------------------------------------------------------------- ops
 
 func atoi(s string) (int, bool) {
+	if s == "" || len(s) > 9 {
+		return 0, false
+	}
+	for _, c := range s {
+		if c < '0' || c > '9' {
+			return 0, false
+		}
+	}
 	n, err := strconv.Atoi(s)
-	return n, err == nil && n >= 0
+	return n, err == nil
 }
+
+func is01(s string) bool { return s == "0" || s == "1" }
 
 type opResult struct {
 	text       string
@@ -858,6 +901,9 @@ func (r *runner) Exec(op string) (string, string) {
 		if sc < 0 || !aok {
 			return "bad-op", ""
 		}
+		if _, ok := amount(kv["amt"]); !ok || !is01(kv["dry"]) || !is01(kv["nf"]) {
+			return "bad-op", ""
+		}
 		r.opCreateTx(&res, sc, a, kv["dry"] == "1", kv["amt"], kv["nf"] == "1")
 	case "fundpsbt":
 		if sc < 0 || !aok {
@@ -867,29 +913,29 @@ func (r *runner) Exec(op string) (string, string) {
 			return "bad-op", ""
 		}
 	case "importdry", "import":
-		if sc < 0 || kv["name"] == "" || kv["key"] == "" {
+		if _, ok := atoi(kv["name"]); sc < 0 || !ok || kv["key"] == "" {
 			return "bad-op", ""
 		}
 		if !r.opImport(&res, kind == "importdry", sc, kv["name"], kv["key"], kv["n"]) {
 			return "bad-op", ""
 		}
 	case "rename":
-		if sc < 0 || !aok || kv["name"] == "" {
+		if _, ok := atoi(kv["name"]); sc < 0 || !aok || !ok {
 			return "bad-op", ""
 		}
 		r.useName(kv["name"])
-		err := r.w.RenameAccount(scopes[sc].ks, uint32(a), nameStr(kv["name"]))
+		err := r.w.RenameAccount(scopes[sc].ks, uint32(a), nameStr(canon(kv["name"])))
 		res.text, res.rolledBack = errClass(err), err != nil
 		r.blame[[2]int{sc, a}] = "RenameAccount"
 	case "newacct":
-		if sc < 0 || kv["name"] == "" {
+		if _, ok := atoi(kv["name"]); sc < 0 || !ok {
 			return "bad-op", ""
 		}
 		r.useName(kv["name"])
 		if r.prev != nil {
 			r.blame[[2]int{sc, r.prev.last[sc] + 1}] = "NextAccount"
 		}
-		n, err := r.w.NextAccount(scopes[sc].ks, nameStr(kv["name"]))
+		n, err := r.w.NextAccount(scopes[sc].ks, nameStr(canon(kv["name"])))
 		res.text, res.rolledBack = errClass(err), err != nil
 		if err == nil {
 			res.text = fmt.Sprintf("ok acct=%d", n)
@@ -898,7 +944,18 @@ func (r *runner) Exec(op string) (string, string) {
 		r.w.Lock()
 		res.text = "ok"
 	case "unlock":
-		res.text = errClass(r.w.Unlock(privPass, nil))
+		err := r.w.Unlock(privPass, nil)
+		res.text = errClass(err)
+		if err != nil {
+			// oracle: a wallet restarted on the same database unlocks with the same passphrase
+			if e2 := r.restartedUnlock(); e2 == nil {
+				who := "Unattributed"
+				if r.dryImports > 0 {
+					who = "ImportAccountDryRun"
+				}
+				res.viol = append(res.viol, fmt.Sprintf("C08 key=%s.unlock-fails-unlike-restart: Unlock with the right passphrase fails on the running wallet (%v) while a wallet restarted on the same database unlocks", who, strings.ReplaceAll(err.Error(), ";", ",")))
+			}
+		}
 	case "cmp":
 		run, err := r.query(r.w)
 		if err != nil {
@@ -1198,6 +1255,19 @@ func (r *runner) opImport(res *opResult, dry bool, sc int, nameId, keyId, nStr s
 		}
 		key, fp = impKeys[k], impFingerprint(k)
 	}
+	var n uint32
+	if dry {
+		if nStr == "big" {
+			n = 1 << 31
+		} else {
+			v, ok := atoi(nStr)
+			if !ok || v > 8 {
+				return false
+			}
+			n = uint32(v)
+		}
+	}
+	nameId = canon(nameId)
 	r.useName(nameId)
 	at := scopes[sc].impT
 	name := "ImportAccount"
@@ -1216,17 +1286,8 @@ func (r *runner) opImport(res *opResult, dry bool, sc int, nameId, keyId, nStr s
 		res.text = fmt.Sprintf("ok acct=%d props=%s:%s:%d:%d", p.AccountNumber, nameID(p.AccountName), keyID(sc, p), p.ExternalKeyCount, p.InternalKeyCount)
 		return true
 	}
-	var n uint32
-	if nStr == "big" {
-		n = 1 << 31
-	} else {
-		v, ok := atoi(nStr)
-		if !ok || v > 8 {
-			return false
-		}
-		n = uint32(v)
-	}
 	res.rolledBack = true
+	r.dryImports++
 	p, ext, in, err := r.w.ImportAccountDryRun(nameStr(nameId), key, fp, &at, n)
 	if err != nil {
 		res.text = errClass(err)
